@@ -16,7 +16,7 @@ ANCHOR_FILES = ['/repo/channel.go', '/repo/node.go']
 
 
 def tasks(tier):
-    ts = [Task('verifHarness_C13_enqueue', [0]), Task('verifHarness_C13_enqueue', [1])]
+    ts = [Task('verifHarness_C13_enqueue', [0]), Task('verifHarness_C13_enqueue', [1]), Task('verifHarness_C13_full_queue_keeps_backlog', [])]
     ts += [Task('verifHarness_C13_stall', [k]) for k in (0, 1, 2)]
     ts += [Task('verifHarness_C14_read_failure', [busy]) for busy in (0, 1, 2, 3)]
     ts += [Task('verifHarness_C13_failed_write', [cause, k, 0]) for cause in (0, 1, 2, 3, 4, 5, 6, 7, 8) for k in (1, 2, 3)]
@@ -30,11 +30,12 @@ def tasks(tier):
 
 
 def required_reach(tier):
-    return ['C13/K2', 'C11/K1', 'C13/S', 'C13/L1', 'C14/L2', 'C13/N']
+    return ['C13/K2', 'C11/K1', 'C13/S', 'C13/L1', 'C14/L2', 'C13/N', 'C13/K2b']
 
 
 def bounds(tier):
-    return {'enqueue': 'one Channel.write with an arbitrary backlog 0..64 (symbolic), channel live or cancelled',
+    return {'full_backlog': '64 distinct items queued on a channel set up by the real Channel.initialize, a 65th written: the 64 are kept in order, the newcomer is discarded, no blocking',
+            'enqueue': 'one Channel.write with an arbitrary backlog 0..64 (symbolic), channel live or cancelled',
             'dispatch': 'one request through the node loop with 3 member channels + 1 foreign, every queue at an arbitrary fill level '
                         '(so any subset of channels is full): the loop consumes the request and returns to waiting; every non-full '
                         'addressed channel still receives the item',
